@@ -1934,7 +1934,7 @@ fn rand_re(r: &mut Rng, depth: u32) -> Re {
 
 pub fn strings(cx: &mut Ctx) {
     let alpha = ['a', 'B', 'ß', 'É', 'İ', 'σ', ' ', '\t', ',', '𝄞', 'b', 'é'];
-    let needles = ["", "a", "aa", "B", "b", "é", "É", "ß", "ss", " ", ",", "𝄞", "zz", "aB", "i", "İ", "σ", "Σ", "a,"];
+    let needles = ["", "a", "aa", "B", "b", "é", "É", "ß", "ss", " ", ",", "𝄞", "zz", "aB", "i", "İ", "σ", "Σ", "a,", "\u{212a}", "k", "\u{1e9e}", "\u{23a}", "\u{2c65}"];
     let rand_s = |r: &mut Rng, maxlen: u64| -> String {
         let n = r.below(maxlen + 1);
         (0..n).map(|_| if r.chance(1, 3) { 'a' } else { *r.pick(&alpha) }).collect()
@@ -1986,6 +1986,26 @@ pub fn strings(cx: &mut Ctx) {
             let mut c = cx.case(mcall(id("s"), "splitAt", vec![id("i")]));
             c.bind.insert("s".into(), V::Str(s.clone()));
             c.bind.insert("i".into(), V::Int(at));
+            c.forms = forms(&["bound", "lit"]);
+            cx.out(c);
+        }
+    }
+    // case-insensitive search where the two cases of a character differ in UTF-8 length
+    for (a, b) in [("k", "\u{212a}"), ("\u{212a}", "k"), ("ß", "\u{1e9e}"), ("\u{1e9e}", "ß"), ("\u{23a}", "\u{2c65}"), ("\u{2c65}", "\u{23a}"), ("xk", "\u{212a}"), ("k\u{212a}k", "\u{212a}k")] {
+        for f in ["containsI", "startsWithI", "endsWithI", "contains"] {
+            let mut c = cx.case(mcall(id("s"), f, vec![id("n")]));
+            c.bind.insert("s".into(), V::Str(a.to_string()));
+            c.bind.insert("n".into(), V::Str(b.to_string()));
+            c.forms = forms(&["bound", "lit"]);
+            cx.out(c);
+        }
+    }
+    // integer bases with exponents that are not a number or negative
+    for base in [V::Int(0), V::Int(1), V::Int(-1), V::Int(2), V::Uint(0), V::Uint(1), V::Uint(3)] {
+        for e in [f64::NAN, f64::NEG_INFINITY, -0.5, -1.0, -1e300] {
+            let mut c = cx.case(call("pow", vec![id("x"), id("e")]));
+            c.bind.insert("x".into(), base.clone());
+            c.bind.insert("e".into(), V::Dbl(e));
             c.forms = forms(&["bound", "lit"]);
             cx.out(c);
         }
